@@ -135,9 +135,9 @@ class EvalNamespace(FunctionContract):
         ctx = interp.ctx
         e = {'scenario': scenario, 'eval_calls': [], 'resolve_calls': []}
         # a variable named like a helper ('lag') and one named like nothing else
-        series = {'X': object(), 'lag': object()}
+        series = {'X': object(), 'lag': object(), '_s': object()}
         e['series'] = series
-        obj = SObj(VectorContainer, {'index': ['X', 'lag'], 'span': [1, 2]}, label='c')
+        obj = SObj(VectorContainer, {'index': ['X', 'lag', '_s'], 'span': [1, 2]}, label='c')
         e['table_before'] = dict(F.builtins)
         e['table_id'] = id(F.builtins)
 
@@ -173,7 +173,7 @@ class EvalNamespace(FunctionContract):
             kw['locals'] = e['locals']
         if e['builtins'] is not None:
             kw['builtins'] = e['builtins']
-        e['expr'] = 'X[`1`] + lag' if scenario == 'backtick' else 'X + lag'
+        e['expr'] = 'X[`1`] + lag + _s' if scenario == 'backtick' else 'X + lag + _s'
         return Call([e['expr']], kw, self_obj=obj, entry=e)
 
     def post(self, interp, scenario, call, out):
